@@ -122,3 +122,69 @@ def dedupe(insts, key=inst_key):
 
 def as_int_list(a):
     return [int(x) for x in np.asarray(a).tolist()]
+
+
+# ---------------------------------------------------------------------------------------
+# C29 / C28: abstraction of a (possibly split) output tree sequence back to input nodes
+# ---------------------------------------------------------------------------------------
+
+def decorate(inst, variant):
+    """Instance decorations that the specs do not constrain (they must be *copied*): node
+    populations, individuals, metadata and schema.  variant in 0..3."""
+    import tskit
+    N = inst["N"]
+    d = {"populations": 0, "node_population": None, "indiv": None, "schema": None, "node_metadata": None}
+    if variant in (1, 3):
+        d["populations"] = 2
+        d["node_population"] = [u % 2 for u in range(N)]
+        d["indiv"] = [(u // 2) if u < inst["NS"] else (-1 if u % 2 else inst["NS"] // 2 + 1) for u in range(N)]
+    if variant in (1, 2):
+        d["schema"] = tskit.MetadataSchema.permissive_json()
+        d["node_metadata"] = [{"name": f"n{u}"} if u % 2 == 0 else {} for u in range(N)]
+    if variant == 3:
+        d["node_metadata"] = [f"raw{u}".encode() for u in range(N)]
+    return d
+
+
+def decorated_ts(inst, variant):
+    d = decorate(inst, variant)
+    i2 = dict(inst)
+    if d["indiv"] is not None:
+        i2["indiv"] = d["indiv"]
+    return ts_of(i2, node_metadata=d["node_metadata"], schema=d["schema"], populations=d["populations"],
+                 node_population=d["node_population"])
+
+
+def orig_by_time(inst, out_ts):
+    """out node -> input node.  Ids below N map to themselves; a node with id >= N is a copy and
+    is mapped to the unique input non-sample node with the same time (TSGen gives internal nodes
+    pairwise distinct times), or None."""
+    N = inst["N"]
+    sset = set(inst["samples"])
+    by_time = {}
+    for u in range(N):
+        if u not in sset:
+            by_time.setdefault(float(inst["time"][u]), []).append(u)
+    res = []
+    for n in range(out_ts.num_nodes):
+        if n < N:
+            res.append(n)
+        else:
+            c = by_time.get(float(out_ts.nodes_time[n]), [])
+            res.append(c[0] if len(c) == 1 else None)
+    return res
+
+
+def where_present(rows):
+    """rows[i][n] = parent of n in cell i -> {n: sorted list of cells where n has a parent or a child}"""
+    w = {}
+    for i, row in enumerate(rows):
+        for n, p in enumerate(row):
+            if p != -1:
+                w.setdefault(n, set()).add(i)
+                w.setdefault(p, set()).add(i)
+    return {n: sorted(s) for n, s in w.items()}
+
+
+def is_run(cells):
+    return not cells or cells == list(range(cells[0], cells[-1] + 1))
